@@ -81,6 +81,14 @@ Conv(st, v, from, to) ==
 
 SpecialIds == {"EA", "i", "j", "k"}
 
+\* usual arithmetic conversion of v : from  to the operation type t, in the two steps the standard
+\* describes (promotion, then conversion to the common type); the steps only differ under a deviation
+Conv2(st, v, from, t) == Conv(st, Conv(st, v, from, Promote(from)), Promote(from), t)
+
+\* type of c ? a : b.  Deviation NoPromoCond (not observable by itself, only together with
+\* CastBothSigned): the compiler takes the common type of the un-promoted arm types.
+CondType(st, ta, tb) == IF "NoPromoCond" \in st.dev THEN Common(ta, tb) ELSE Arith(ta, tb)
+
 \* static type of an expression (needed for the arm of ?: that is not evaluated)
 RECURSIVE TypeOfC(_, _)
 TypeOfC(e, st) ==
@@ -94,7 +102,7 @@ TypeOfC(e, st) ==
             IF e.o \in {"<", ">", "<=", ">=", "==", "!=", "&&", "||"} THEN S32
             ELSE IF e.o \in {"<<", ">>"} THEN Promote(TypeOfC(e.a, st))
             ELSE Arith(TypeOfC(e.a, st), TypeOfC(e.b, st))
-      [] k = "cond" -> Arith(TypeOfC(e.a, st), TypeOfC(e.b, st))
+      [] k = "cond" -> CondType(st, TypeOfC(e.a, st), TypeOfC(e.b, st))
       [] k = "cast" -> e.t
       [] k = "assign" -> TypeOfC(e.l, st)
       [] k = "postfix" -> TypeOfC(e.a, st)
@@ -186,18 +194,26 @@ EvalC(e, st) ==
                 s2 == rb.st
             IN
             IF o \in {"<<", ">>"} THEN
+                \* deviation ShiftNoPromotion: the shift is computed in the un-promoted type of the left
+                \* operand with RzIL semantics (count >= width gives all fill bits); what C leaves
+                \* undefined is still decided by the promoted width
                 LET t == IF "ShiftNoPromotion" \in s2.dev THEN ra.t ELSE Promote(ra.t)
                     x == Conv(s2, ra.v, ra.t, t)
                     tb == Promote(rb.t)
                     cnt == Conv(s2, rb.v, rb.t, tb)
-                    bad == (tb.s /\ Msb(cnt)) \/ Count(cnt) >= t.w
+                    bad == (tb.s /\ Msb(cnt)) \/ Count(cnt) >= Promote(ra.t).w
                 IN  IF bad THEN R(Zero(t.w), t, Unspec(s2, "shiftcount"))
                     ELSE IF o = "<<" THEN R(ShlN(x, Count(cnt)), t, s2)
                     ELSE R(ShrN(x, Count(cnt), t.s /\ Msb(x)), t, s2)
             ELSE
             LET t == Arith(ra.t, rb.t)
-                x == Conv(s2, ra.v, ra.t, t)
-                y == Conv(s2, rb.v, rb.t, t)
+                x == Conv2(s2, ra.v, ra.t, t)
+                y == Conv2(s2, rb.v, rb.t, t)
+                \* deviation CompareNoPromotion: comparisons are done in the common type of the
+                \* un-promoted operand types
+                tc == IF "CompareNoPromotion" \in s2.dev THEN Common(ra.t, rb.t) ELSE t
+                xc == IF "CompareNoPromotion" \in s2.dev THEN Conv(s2, ra.v, ra.t, tc) ELSE x
+                yc == IF "CompareNoPromotion" \in s2.dev THEN Conv(s2, rb.v, rb.t, tc) ELSE y
             IN
             (CASE o \in {"+", "-", "*", "&", "|", "^"} -> R(ArithOp(o, x, y), t, s2)
               [] o = "/" \/ o = "%" ->
@@ -210,18 +226,19 @@ EvalC(e, st) ==
                              m == UMod(ax, ay)
                          IN  IF o = "/" THEN R(IF Msb(x) # Msb(y) THEN Neg(q) ELSE q, t, s2)
                              ELSE R(IF Msb(x) THEN Neg(m) ELSE m, t, s2)
-              [] o = "==" -> R(Int01(Eq(x, y)), S32, s2)
-              [] o = "!=" -> R(Int01(~Eq(x, y)), S32, s2)
-              [] o = "<" -> R(Int01(IF t.s THEN Slt(x, y) ELSE Ult(x, y)), S32, s2)
-              [] o = ">" -> R(Int01(IF t.s THEN Slt(y, x) ELSE Ult(y, x)), S32, s2)
-              [] o = "<=" -> R(Int01(IF t.s THEN Sle(x, y) ELSE Ule(x, y)), S32, s2)
-              [] o = ">=" -> R(Int01(IF t.s THEN Sle(y, x) ELSE Ule(y, x)), S32, s2))
+              [] o = "==" -> R(Int01(Eq(xc, yc)), S32, s2)
+              [] o = "!=" -> R(Int01(~Eq(xc, yc)), S32, s2)
+              [] o = "<" -> R(Int01(IF tc.s THEN Slt(xc, yc) ELSE Ult(xc, yc)), S32, s2)
+              [] o = ">" -> R(Int01(IF tc.s THEN Slt(yc, xc) ELSE Ult(yc, xc)), S32, s2)
+              [] o = "<=" -> R(Int01(IF tc.s THEN Sle(xc, yc) ELSE Ule(xc, yc)), S32, s2)
+              [] o = ">=" -> R(Int01(IF tc.s THEN Sle(yc, xc) ELSE Ule(yc, xc)), S32, s2))
       [] k = "cond" ->
             LET rc == EvalC(e.c, st)
-                t == Arith(TypeOfC(e.a, st), TypeOfC(e.b, st))
+                t == CondType(st, TypeOfC(e.a, st), TypeOfC(e.b, st))
+                cv(r) == IF "NoPromoCond" \in st.dev THEN Conv(r.st, r.v, r.t, t) ELSE Conv2(r.st, r.v, r.t, t)
             IN  IF NonZero(rc.v)
-                THEN LET r == EvalC(e.a, rc.st) IN R(Conv(r.st, r.v, r.t, t), t, r.st)
-                ELSE LET r == EvalC(e.b, rc.st) IN R(Conv(r.st, r.v, r.t, t), t, r.st)
+                THEN LET r == EvalC(e.a, rc.st) IN R(cv(r), t, r.st)
+                ELSE LET r == EvalC(e.b, rc.st) IN R(cv(r), t, r.st)
       [] k = "assign" -> AssignTo(e.l, e.o, e.r, st)
       [] k = "postfix" ->
             LET r == EvalC(e.a, st)
